@@ -637,7 +637,7 @@ pub fn run_client_grid(cfg: &ScenCfg, out: &mut RunOut) {
 // ---------------------------------------------------------------------------
 // C08: authorization over real TLS sessions, model-based
 
-const ROLE_CERTS: [(&str, &str, &str); 8] = [
+pub const ROLE_CERTS: [(&str, &str, &str); 9] = [
     ("cli_operator_cert.pem", "cli_operator_key.pem", "operator"),
     ("cli_viewer_cert.pem", "cli_viewer_key.pem", "viewer"),
     ("cli_role_admin_cert.pem", "cli_role_admin_key.pem", "admin"),
@@ -646,6 +646,7 @@ const ROLE_CERTS: [(&str, &str, &str); 8] = [
     ("cli_role_space_cert.pem", "cli_role_space_key.pem", "role with space"),
     ("cli_role_empty_cert.pem", "cli_role_empty_key.pem", ""),
     ("cli_operator_chain_ca.pem", "cli_operator_key.pem", "operator"),
+    ("cli_role_nul_cert.pem", "cli_role_nul_key.pem", "operator\0x"),
 ];
 
 fn gen_policy(role: &str, first: Option<(u8, u16, u16)>) -> Policy {
@@ -1389,4 +1390,243 @@ pub fn run_tls_sessions(cfg: &ScenCfg, out: &mut RunOut) {
         let _ = kernel::block_on(fut.as_mut());
     }
     kernel::settle();
+}
+
+// ---------------------------------------------------------------------------
+// C09 / C08 over a history: several TLS listeners with different trust live in
+// one process, and the same peers (each with one rustls client configuration,
+// i.e. with its session store and resumption tickets) connect to them in an
+// arbitrary order. Admission, negotiated access and the role passed to the
+// authorization handler of every connection must be a function of the
+// certificate that peer holds and of the listener's own configuration - never
+// of what an earlier connection (to this or another listener) established.
+
+struct HistListener {
+    name: &'static str,
+    addr: SocketAddr,
+    authz: bool,
+    min13: bool,
+    /// identities this listener's trust settings accept
+    accepts: &'static [usize],
+    journal: Journal,
+    mem: UnitMem,
+    handle: ServerHandle,
+}
+
+/// (certificate, key, role in the certificate)
+const IDENTITIES: [(&str, &str, Option<&str>); 6] = [
+    ("cli_operator_cert.pem", "cli_operator_key.pem", Some("operator")),
+    ("cli_viewer_cert.pem", "cli_viewer_key.pem", Some("viewer")),
+    ("cli_wrongca_cert.pem", "cli_wrongca_key.pem", Some("operator")),
+    ("cli_norole_cert.pem", "cli_norole_key.pem", None),
+    ("ss_b_cert.pem", "ss_b_key.pem", Some("viewer")),
+    ("ss_c_cert.pem", "ss_c_key.pem", Some("operator")),
+];
+
+pub fn run_server_history(cfg: &ScenCfg, out: &mut RunOut) {
+    let sched = chance(1, 2);
+    let chunk = chance(1, 2);
+    let short = chance(1, 3);
+    kernel::with(|w| {
+        w.cfg.sched_random = sched;
+        w.cfg.select_random = sched;
+        w.cfg.chunk_reads = chunk;
+        w.cfg.short_writes = short;
+    });
+    let (dec_idx, decode) = pick_decode(&cfg.decode);
+    // the listeners of this process
+    let specs: [(&'static str, &str, &str, &str, CertificateMode, &'static [usize]); 3] = [
+        ("authority-ca1", "ca1_cert.pem", "srv_ok_cert.pem", "srv_ok_key.pem", CertificateMode::AuthorityBased, &[0, 1, 3]),
+        ("authority-ca2", "ca2_cert.pem", "srv_wrongca_cert.pem", "srv_wrongca_key.pem", CertificateMode::AuthorityBased, &[2]),
+        ("self-signed-b", "ss_b_cert.pem", "ss_a_cert.pem", "ss_a_key.pem", CertificateMode::SelfSigned, &[4]),
+    ];
+    let nl = 2 + choose(2) as usize;
+    let mut listeners: Vec<HistListener> = Vec::new();
+    let mut tasks = Vec::new();
+    for (k, (name, trust, cert, key, mode, accepts)) in specs.iter().enumerate().take(nl) {
+        let min13 = chance(1, 4);
+        let authz = chance(1, 2);
+        let tls = match TlsServerConfig::new(&fixture(trust), &fixture(cert), &fixture(key), None, if min13 { MinTlsVersion::V1_3 } else { MinTlsVersion::V1_2 }, *mode) {
+            Ok(t) => t,
+            Err(e) => {
+                out.violate("C09", "server_config_rejected", format!("TlsServerConfig::new failed for listener {}: {}", name, e));
+                return;
+            }
+        };
+        let journal: Journal = Arc::new(Mutex::new(Vec::new()));
+        let mem = UnitMem::new(0xC09 + k as u64);
+        let handler = MemHandler { unit: 1, mem: mem.clone(), journal: journal.clone() }.wrap();
+        let map = ServerHandlerMap::single(UnitId::new(1), handler);
+        let addr: SocketAddr = format!("10.0.0.{}:802", 1 + k).parse().unwrap();
+        let listener = TcpListener::bind_now(addr).unwrap();
+        let (handle, task) = if authz {
+            let auth = Arc::new(PolicyAuth { policy: Policy::Role(ROLE_POLICY_ROLE.to_string()), journal: journal.clone() });
+            create_tls_server_task_with_authz(8, listener, map, auth, tls, AddressFilter::Any, decode)
+        } else {
+            create_tls_server_task(8, listener, map, tls, AddressFilter::Any, decode)
+        };
+        tasks.push(simtokio::task::spawn_named("tls-server", task.run()));
+        listeners.push(HistListener { name, addr, authz, min13, accepts, journal, mem, handle });
+    }
+    kernel::settle();
+    // one client configuration (with its session store) per identity, created at first use
+    let mut configs: Vec<Option<(u32, Arc<rustls::ClientConfig>)>> = vec![None; IDENTITIES.len()];
+    let nconn = 2 + choose(5) as usize;
+    let mut wl = dec_idx as u64 | (nl as u64) << 8;
+    let mut trace: Vec<String> = Vec::new();
+    // bias towards the history that matters: the same identity on different listeners
+    let focus = choose(IDENTITIES.len() as u32) as usize;
+    for c in 0..nconn {
+        let li = choose(nl as u32) as usize;
+        let id = if chance(1, 2) { focus } else { choose(IDENTITIES.len() as u32) as usize };
+        let (cert, key, role) = IDENTITIES[id];
+        if configs[id].is_none() {
+            let v = choose(3);
+            configs[id] = Some((v, peer_client_config(v, cert, key)));
+        }
+        let (peer_v, pcfg) = configs[id].clone().unwrap();
+        let l = &listeners[li];
+        hash_bytes(&mut wl, &[li as u8, id as u8, peer_v as u8, l.authz as u8, l.min13 as u8]);
+        let before = l.journal.lock().unwrap().len();
+        let result = Arc::new(Mutex::new(PeerResult::default()));
+        let resumed = Arc::new(Mutex::new(false));
+        let tx = 0x100 + c as u16;
+        let request = mbap_frame(tx, 1, &[3, 0, 9, 0, 1]);
+        let keep_open = chance(1, 3);
+        {
+            let result = result.clone();
+            let resumed = resumed.clone();
+            let addr = l.addr;
+            kernel::with(|w| w.net.client_ip = Some(format!("10.0.9.{}", 1 + id).parse().unwrap()));
+            simtokio::task::spawn_named("tls-peer-client", async move {
+                let tcp = match TcpStream::connect(addr).await {
+                    Ok(t) => t,
+                    Err(e) => {
+                        result.lock().unwrap().error = format!("tcp: {}", e);
+                        return;
+                    }
+                };
+                result.lock().unwrap().connected_tcp = true;
+                let connector = tokio_rustls::TlsConnector::from(pcfg);
+                let mut stream = match connector.connect(ServerName::try_from("test.com").unwrap(), tcp).await {
+                    Err(e) => {
+                        let mut r = result.lock().unwrap();
+                        r.handshake_ok = Some(false);
+                        r.error = format!("{}", e);
+                        return;
+                    }
+                    Ok(s) => s,
+                };
+                {
+                    let mut r = result.lock().unwrap();
+                    r.handshake_ok = Some(true);
+                    r.version = version_num(stream.get_ref().1.protocol_version());
+                    *resumed.lock().unwrap() = matches!(stream.get_ref().1.handshake_kind(), Some(rustls::HandshakeKind::Resumed));
+                }
+                if stream.write_all(&request).await.is_err() {
+                    result.lock().unwrap().closed = true;
+                    return;
+                }
+                let mut buf = [0u8; 64];
+                match simtokio::time::timeout(Duration::from_secs(2), stream.read(&mut buf)).await {
+                    Ok(Ok(0)) => result.lock().unwrap().closed = true,
+                    Ok(Ok(n)) => result.lock().unwrap().app_bytes.extend_from_slice(&buf[..n]),
+                    Ok(Err(e)) => {
+                        let mut r = result.lock().unwrap();
+                        r.closed = true;
+                        r.error = format!("{}", e);
+                    }
+                    Err(_) => {}
+                }
+                if keep_open {
+                    simtokio::time::sleep(Duration::from_secs(600)).await;
+                }
+            });
+        }
+        kernel::run_until(|| false, 2_500 * MS, 200_000);
+        let r = result.lock().unwrap().clone();
+        let was_resumed = *resumed.lock().unwrap();
+        if was_resumed {
+            out.probe("resumed_handshake");
+        }
+        let cert_ok = l.accepts.contains(&id);
+        let version_ok = !(l.min13 && peer_v == 0);
+        let admitted = cert_ok && version_ok && (!l.authz || role.is_some());
+        let allowed = !l.authz || role == Some(ROLE_POLICY_ROLE);
+        let v = l.mem.read_reg(3, 9).unwrap();
+        let good = mbap_frame(tx, 1, &[3, 2, (v >> 8) as u8, v as u8]);
+        let denied = mbap_frame(tx, 1, &[0x83, 1]);
+        let j: Vec<(u8, Call)> = l.journal.lock().unwrap()[before..].to_vec();
+        let desc = format!(
+            "connection {} of the history {:?}: identity {} (role {:?}, versions {}) to listener {} (authz={} min={}){}",
+            c,
+            trace,
+            cert,
+            role,
+            ["1.2", "1.3", "1.2+1.3"][peer_v as usize],
+            l.name,
+            l.authz,
+            if l.min13 { "1.3" } else { "1.2" },
+            if was_resumed { " [resumed session]" } else { "" }
+        );
+        trace.push(format!("{}->{}{}", cert.trim_end_matches("_cert.pem"), l.name, if was_resumed { "(resumed)" } else { "" }));
+        if admitted {
+            out.probe("history_admitted");
+            let want = if allowed { &good } else { &denied };
+            if &r.app_bytes != want {
+                let known = !l.min13 && peer_v == 1 && out.known("C09", "min_1_2_refuses_tls13_only_peer");
+                if !known {
+                    let rule = if r.app_bytes == good || r.app_bytes == denied { "history_changes_access" } else { "valid_peer_refused" };
+                    out.violate("C09", rule, format!("{}: reply {} expected {} (handshake {:?}, error {})", desc, hex(&r.app_bytes), hex(want), r.handshake_ok, r.error));
+                    if rule == "history_changes_access" {
+                        out.violate("C08", rule, format!("{}: reply {} expected {}", desc, hex(&r.app_bytes), hex(want)));
+                    }
+                    break;
+                }
+            }
+            if l.authz {
+                let want_call = (1u8, Call::Auth(3, 9, 1, role.unwrap().to_string(), allowed));
+                if j.first() != Some(&want_call) {
+                    out.violate("C09", "role_not_from_certificate", format!("{}: authorization handler saw {:?}, expected {:?}", desc, j.first(), want_call));
+                    out.violate("C08", "role_not_from_certificate", format!("{}: authorization handler saw {:?}, expected {:?}", desc, j.first(), want_call));
+                    break;
+                }
+                if !allowed && j.len() != 1 {
+                    out.violate("C08", "denied_request_had_effect", format!("{}: journal {:?}", desc, j));
+                    break;
+                }
+            }
+            if l.min13 && r.version.map(|x| x < 13).unwrap_or(false) {
+                out.violate("C09", "below_minimum_version", format!("{}: negotiated {:?}", desc, r.version));
+                break;
+            }
+        } else {
+            out.probe("history_refused");
+            if !r.app_bytes.is_empty() || !j.is_empty() {
+                let known = l.min13 && peer_v == 0 && cert_ok && (!l.authz || role.is_some()) && out.known("C09", "min_1_3_accepts_tls12_peer");
+                if !known {
+                    let rule = if !cert_ok {
+                        "invalid_certificate_admitted"
+                    } else if !version_ok {
+                        "below_minimum_version"
+                    } else {
+                        "role_less_certificate_admitted"
+                    };
+                    out.violate("C09", rule, format!("{}: the peer must be refused but received {} (version {:?}); handler calls {:?}", desc, hex(&r.app_bytes), r.version, j));
+                    break;
+                }
+            }
+        }
+        out.ops_checked += 1;
+        out.state((li as u64) | (id as u64) << 2 | (was_resumed as u64) << 5 | (admitted as u64) << 6 | (l.authz as u64) << 7);
+    }
+    out.nontrivial = Some(wl);
+    out.sample = Some(json!({"scenario": "tls server history (several listeners, shared peer session stores)", "listeners": listeners.iter().map(|l| format!("{} authz={} min13={}", l.name, l.authz, l.min13)).collect::<Vec<_>>(), "connections": trace}));
+    out.observable.extend(format!("{:?}", trace).into_bytes());
+    for l in listeners.iter_mut() {
+        let mut fut = Box::pin(l.handle.shutdown());
+        let _ = kernel::block_on(fut.as_mut());
+    }
+    kernel::settle();
+    let _ = tasks;
 }
